@@ -15,6 +15,9 @@ use cameleon::DeviceControl;
 use sha1::Digest;
 
 const MT_SLOT: u64 = 0x10_0000;
+/// an advertised size that can be allocated virtually but never physically (only safe to
+/// generate once the implementation no longer allocates the advertised size up front)
+const ABSURD_MID: u64 = 1 << 63;
 
 /// lowercase hex, `-` for empty (same format as `camharness::hex`, without per-byte formatting)
 fn hex(b: &[u8]) -> String {
@@ -558,6 +561,8 @@ fn gen_case(rng: &mut Rng, thorough: bool) -> Case {
             }
             2 if size > 0 => size -= 1 + rng.below(size), // advertised size shorter than the file
             3 => region_data.extend_from_slice(&rng.bytes(20)), // trailing bytes beyond the size
+            // absurd advertised sizes
+            4 => size = *rng.pick(&[1u64 << 63, u64::MAX, (1u64 << 63) + 5, u64::MAX - 7, ABSURD_MID]),
             _ => {}
         }
         let addr = next_file_addr;
